@@ -627,6 +627,23 @@ func (e *specEnv) evalCall(n *ECall) sv {
 			specFail("oldalloc() not available")
 		}
 		return sv{e.old["ALLOC"], tInt}
+	case "inv":
+		// the declared type invariants (invariant-of) of the object the argument points to, in the
+		// heap of the enclosing expression
+		need(1)
+		a := args()[0]
+		parts := []string{}
+		for _, ti := range c.typeInvsFor(a.ty) {
+			ne := &specEnv{c: c, vars: map[string]sv{ti.Var: {a.t, a.ty}}, heap: e.heap, old: e.old, pkg: e.pkg}
+			if p := c.eng.pkgs[ti.Pkg]; p != nil {
+				ne.pkg = p.Pkg
+			}
+			parts = append(parts, ne.eval(ti.Clause.E).t)
+		}
+		if len(parts) == 0 {
+			specFail("inv: no invariant-of is declared for %s", a.ty)
+		}
+		return sv{implies(not(eq(a.t, "0")), and(parts...)), tBool}
 	case "fresh":
 		// the reference held by the argument was allocated during this call
 		need(1)
